@@ -36,9 +36,10 @@ class error_html(object):
         """
         self.errh = errh
         self.fd = fd
-        self.seg_term = term[0]
-        self.ele_term = term[1]
-        self.subele_term = term[2]
+        # The delimiters come from the source document: escape them like any other input
+        self.seg_term = escape_html_chars(term[0])
+        self.ele_term = escape_html_chars(term[1])
+        self.subele_term = escape_html_chars(term[2])
         self.eol = ''
         self.last_line = 0
         self.loop_info = None
